@@ -214,6 +214,11 @@ class Registry:
                     (isinstance(d, ast.Name) and d.id == "spec") for d in st.decorator_list):
                 self.spec_funcs[st.name] = (st, m)
 
+    def region(self, tag, selector):
+        """name a statement region of a function: selector(FunctionDef) -> list of its statement nodes.
+        A contract with key '<function key>#<tag>' verifies exactly those statements (free variables = `types`)."""
+        frontend.REGION_SELECTORS[tag] = selector
+
     def lemma(self, name, prop, builder):
         self.lemmas.append((name, prop, builder))
 
@@ -636,6 +641,8 @@ class Verifier:
                     srcs += fc.effects + fc.effects_before + fc.effects_exc
             for c in list(self.reg.variants) + list(self.reg.assumed) + list(self.reg.contracts.values()):
                 srcs += c.effects
+                for cls in c.asserts.values():
+                    srcs += [x[6:] for x in cls if x.startswith("ghost:")]
             out = set()
             for src in srcs:
                 names, paths, _ = body_mods(ast.parse(src.strip()).body)
